@@ -1082,7 +1082,7 @@ def replay_findings(rep: Report, prop: str, model_ok: bool, accept_all: Dict[str
 
 ACCEPT = {"K_clear": "C13-d"}
 TRUSTED = [
-    "source pins pins/registry.json (29 methods mirrored by the hand model but not translated: Variable domain plumbing, HashedIterable / "
+    "source pins pins/registry.json (33 methods mirrored by the hand model but not translated: Variable domain plumbing, HashedIterable / "
     "HashedValue identity, let / entity / an, SymbolicExpression / RWXNode registration, WrappedInstance.__eq__/__hash__)",
     "translator/t_registry.py (fail-closed statement-idiom translator: symbol_graph.py, utils.recursive_subclasses, predicate.Symbol.__new__, "
     "entity let-domain, hashed_data.__iter__, symbolic evaluate, singleton -> Gen/Registry.v) and its idiom table Onto/RegistryIdioms.v",
